@@ -728,8 +728,45 @@ def lex_rec(rep, ex: Explorer, be: Backend):
                 raise AnalysisError(f"{site}: outcome depends on {key!r}")
         if facts is None:
             continue
-        out = _bool_outcome(p)
+        out0 = _bool_outcome(p)
+        pr_out = None
+        if p.outcome[0] == "return" and out0 not in (True, False):
+            from ..harness import returned_bool
+            pr_out = returned_bool(None, p.outcome[1])
+
+        def eval_out(pr, EV, EF, mv, mf):
+            """The returned comparison evaluated in one row (an answer returned as `mv < mf` instead of tested and returned)."""
+            k = pr[0]
+            if k == "const":
+                return pr[1]
+            if k == "not":
+                r = eval_out(pr[1], EV, EF, mv, mf)
+                return None if r is None else (not r)
+            if k in ("and", "or"):
+                rs = [eval_out(q, EV, EF, mv, mf) for q in pr[1]]
+                if None in rs:
+                    return None
+                return all(rs) if k == "and" else any(rs)
+            if pr == ("empty", V):
+                return EV
+            if pr == ("empty", Fm):
+                return EF
+            if k == "cmp" and pr[1] in ("==", "<") and isinstance(pr[2], tuple) and pr[2][0] == "lin" and pr[3] == ("c", 0):
+                x = pr[2][1][1]
+                for t, c in pr[2][1][0]:
+                    sd = _min_term_side(t, V, Fm)
+                    if sd is None:
+                        return None
+                    x += c * (mv if sd == "v" else mf)
+                return (x == 0) if pr[1] == "==" else (x < 0)
+            return None
+
         for EV, EF, mv, mf in product((True, False), (True, False), range(3), range(3)):
+            out = out0
+            if pr_out is not None:
+                out = eval_out(pr_out, EV, EF, mv, mf)
+                if out is None:
+                    out = out0
             ok = True
             for kind, payload, val in facts:
                 if kind == "EV":
@@ -922,12 +959,21 @@ def lex_ties(rep, ex: Explorer, be: Backend):
         pairs = [(a, b) for a in (W1, W2) for b in (X1, X2)]
         free = [pr for pr in pairs if pr not in recvals]
         bad = None
+        # the answer may be returned as a formula over the continuations (any(all(...)) without intermediate tests):
+        # evaluate it under every assignment of the continuations, like the decided form
+        from ..harness import returned_bool, eval_pred, pred_atoms
+        pr_out = returned_bool(None, p.outcome[1]) if p.outcome[0] == "return" else None
+        rec_atoms = [a for a in pred_atoms(pr_out)] if pr_out is not None and pr_out[0] != "const" else []
+        formula = bool(rec_atoms) and all(a[0] == "truthy" and isinstance(a[1], tuple) and a[1][:1] == ("rec",) and a[1][1] in rid_pair for a in rec_atoms)
         for bits in product((True, False), repeat=len(free)):
             rv = dict(recvals)
             rv.update(zip(free, bits))
             want = any(all(rv[(a, b)] for b in (X1, X2)) for a in (W1, W2))
-            if want != out:
+            n += 1  # one evaluated assignment of the continuations (form independent: decided one by one or returned as a formula)
+            got = eval_pred(pr_out, {a: rv[rid_pair[a[1][1]]] for a in rec_atoms}) if formula else out
+            if want != got:
                 bad = rv
+                out = got
                 break
         desc_m = lambda rv: " ".join(f"Rec({a[1]},{b[1]})={'T' if rv[(a, b)] else 'F'}" for a, b in pairs)  # noqa: E731
         rep.check(bad is None, "LEX.tie-quantifier", site, "tie quantifier: " + " ".join(f"{a[1]}{b[1]}={'T' if v else 'F'}" for (a, b), v in sorted(recvals.items())),
